@@ -28,6 +28,7 @@ SYMBOLS = {
     "intsparse": [5, 7, 11, 200],
     "mixed": [0, [], "c", ["t", 1]],
     "nul": ["\x00", "b", "\u00e9", "d"],
+    "bool": [True, False, "c", 2],
 }
 ALPHABETS = [["a", "b"]] * 6 + [[0, 1], [5, 7], [0, []], ["a", ["t", 1]]]
 
@@ -325,7 +326,7 @@ SHAPE = {
 
 
 @st.composite
-def grammar(draw, regimes=("BOOL", "MT", "FREE", "QQ", "FLOAT"), shape=None, symbols=False, signed=False, **kw):
+def grammar(draw, regimes=("BOOL", "MT", "FREE", "QQ", "FLOAT"), shape=None, symbols=False, signed=False, tiny=False, **kw):
     regime = draw(st.sampled_from(list(regimes)))
     g = draw(raw_grammar(**kw))
     mode = shape or SHAPE.get(regime)
@@ -338,8 +339,12 @@ def grammar(draw, regimes=("BOOL", "MT", "FREE", "QQ", "FLOAT"), shape=None, sym
         # every series still converges absolutely); sums can now cancel to exactly zero
         g["rules"] = [[(F(-Fraction(w)) if draw(st.integers(0, 2)) == 0 else w), h, b] for w, h, b in g["rules"]]
         g["signed"] = True
+    if tiny and regime == "FLOAT" and draw(st.integers(0, 5)) == 0:
+        # positive but tiny weights (rare events): still part of the support
+        g["rules"] = [[(draw(st.sampled_from(["1e-13", "3e-14", "1e-30", "1e-300"])) if draw(st.integers(0, 3)) == 0 else w), h, b] for w, h, b in g["rules"]]
+        g["tiny"] = True
     if symbols:
-        g = resymbol(g, draw(st.sampled_from(["str"] * 7 + ["int0", "intsparse", "mixed"])))
+        g = resymbol(g, draw(st.sampled_from(["str"] * 7 + ["int0", "intsparse", "mixed", "bool"])))
     return g
 
 
@@ -353,6 +358,8 @@ def classify(g):
         out.add("terminals:" + g["symbols"])
     if g.get("signed"):
         out.add("signed_weights")
+    if g.get("tiny"):
+        out.add("tiny_positive_weights")
     N0 = cfgref.nullable_set(rules, V)
     if S in N0:
         out.add("nullable_start")
